@@ -39,7 +39,7 @@ SPECS = {
                  ["res", "evt"], ["alloc", "val", "atw", "slice", "aalloc", "agrow", "ashrink", "new", "sendalloc"], impl_failure_only=True),
     "C10": arena("BumpVerif.Props.C10",
                  [("uniform", 800, 45, "some"), ("general", 320, 45, "none"), ("init", 160, 40, "none")],
-                 ["it"], ["alloc", "val", "atw", "tfill", "slice", "reset"], placement=True),
+                 ["it"], ["alloc", "val", "atw", "tfill", "slice", "reset"], placement=True, shape=True),
     "C11": arena("BumpVerif.Props.C11",
                  [("init", 1040, 45, "some"), ("uniform", 160, 40, "none")],
                  ["res", "cap", "evt"], ["atw", "tfill", "alloc"], ops=["atw", "tfill", "alloc"]),
